@@ -584,16 +584,17 @@ Section CoverRatio34.
     Forall (smp C) small -> (length small <= fuel)%nat ->
     Forall (smp C) small' /\ (C <= fst cur1 \/ small' = []) /\
     exists used, snd cur1 = snd cur ++ used /\ fst cur1 = fst cur + vsum used /\
-      forall D, 0 < D -> wsum4 C D used <= room C D (fst cur).
+      0 <= vsum used /\ forall D, 0 < D -> wsum4 C D used <= room C D (fst cur).
   Proof.
     assert (Base : forall (cur : bin A) small cur1 small',
       (cur, small) = (cur1, small') -> Forall (smp C) small -> (C <= fst cur \/ small = []) ->
       Forall (smp C) small' /\ (C <= fst cur1 \/ small' = []) /\
       exists used, snd cur1 = snd cur ++ used /\ fst cur1 = fst cur + vsum used /\
-        forall D, 0 < D -> wsum4 C D used <= room C D (fst cur)).
+        0 <= vsum used /\ forall D, 0 < D -> wsum4 C D used <= room C D (fst cur)).
     { intros cur small cur1 small' E Hs Hor. inversion E; subst cur1 small'.
       split; [exact Hs|]. split; [exact Hor|]. exists []. rewrite app_nil_r.
-      split; [reflexivity|]. split; [cbn; lia|]. intros D HD. rewrite wsum4_nil. unfold room.
+      split; [reflexivity|]. split; [cbn; lia|]. split; [cbn; lia|].
+      intros D HD. rewrite wsum4_nil. unfold room.
       destruct (fst cur <? C) eqn:Ef; lia. }
     induction fuel as [|f IH]; intros cur small cur1 small' E Hs Hlen; cbn [fill_small] in E.
     - apply (Base cur small); [exact E|exact Hs|]. right. destruct small; [reflexivity|cbn in Hlen; lia].
@@ -602,11 +603,12 @@ Section CoverRatio34.
       + apply unsnoc_Some in U. subst small. apply Forall_app in Hs. destruct Hs as [Hr Hy].
         inversion Hy as [|y0 t0 [Hy0 Hy3] _]; subst y0 t0.
         rewrite app_length in Hlen. cbn [length] in Hlen.
-        destruct (IH _ _ _ _ E Hr ltac:(lia)) as (H1 & H2 & used & H3 & H4 & H5).
+        destruct (IH _ _ _ _ E Hr ltac:(lia)) as (H1 & H2 & used & H3 & H4 & H40 & H5).
         split; [exact H1|]. split; [exact H2|]. exists (y :: used).
         cbn [add_to_bin fst snd] in H3, H4, H5.
         split; [rewrite H3, <- app_assoc; reflexivity|].
-        split; [rewrite H4, vsum4_cons; lia|]. intros D HD. specialize (H5 D HD).
+        split; [rewrite H4, vsum4_cons; lia|]. split; [rewrite vsum4_cons; lia|].
+        intros D HD. specialize (H5 D HD).
         rewrite wsum4_cons.
         destruct (Wz_le C D (valueof y)) as [W1 W2]; [lia|lia|].
         unfold room in H5 |- *. rewrite EC.
@@ -812,3 +814,92 @@ Section CoverRatio34.
     exists new, C. split; [exact H1|]. split; [apply Dok_C; exact HC|].
     pose proof (Bud_bounds C C [] HC). unfold PZ in H2. lia.
   Qed.
+
+  Definition main_at (C : Z) (f : nat) : Prop := forall bs cur big medium small,
+    desc big -> desc medium -> Forall (bigp C) big -> Forall (medp C) medium ->
+    Forall (smp C) small -> (cur = empty_bin \/ small = []) -> resid C big medium cur ->
+    good C bs big medium (tq_loop valueof true f C (bs, cur) big medium small).
+
+  Lemma good_incl C bs big' medium' big medium st' :
+    incl big' big -> incl medium' medium -> incl (tl medium') (tl medium) ->
+    good C bs big' medium' st' -> good C bs big medium st'.
+  Proof.
+    intros Hb Hm Hmt (new & D & H1 & H2 & H3). exists new, D. split; [exact H1|].
+    split; [eapply Dok_incl; eassumption|]. pose proof H2 as (HD & _).
+    pose proof (Bud_incl C D medium' medium HD Hm). lia.
+  Qed.
+
+  (** one iteration of the main loop, after the opener has been chosen *)
+  Lemma iter_step C f : 0 < C -> main_at C f ->
+    forall bs big medium small big' medium' opener (cur0 : bin A),
+    fst cur0 = vsum opener -> snd cur0 = opener -> 0 <= vsum opener ->
+    incl big' big -> incl medium' medium -> incl (tl medium') (tl medium) ->
+    desc big' -> desc medium' ->
+    Forall (bigp C) big' -> Forall (medp C) medium' -> Forall (smp C) small ->
+    (forall used D, Dok C big' medium' D -> wsum4 C D used <= room C D (vsum opener) ->
+       3 * wsum4 C D (opener ++ used) + Bud C D medium' <= 24 * D + Bud C D medium) ->
+    good C bs big medium
+      (let '(cur1, small') := fill_small valueof true (length small) C cur0 small in
+       if fst cur1 >=? C then tq_loop valueof true f C (bs ++ [cur1], empty_bin) big' medium' small'
+       else tq_loop valueof true f C (bs, cur1) big' medium' small').
+  Proof.
+    intros HC Hrec bs big medium small big' medium' opener cur0 Hf0 Hs0 Hop Hib Him Himt Hsb Hsm
+      Hb Hm Hsmall Hbin.
+    destruct (fill_small valueof true (length small) C cur0 small) as [cur1 small'] eqn:E.
+    destruct (fill_w C _ _ _ _ _ E Hsmall (le_n _)) as (Hs' & Hor & used & Hu1 & Hu2 & Hu0 & Hu3).
+    rewrite Hs0 in Hu1. rewrite Hf0 in Hu2, Hu3.
+    assert (Hw : forall D, Dok C big' medium' D ->
+      3 * wsum4 C D (snd cur1) + Bud C D medium' <= 24 * D + Bud C D medium).
+    { intros D HD. rewrite Hu1. apply Hbin; [exact HD|]. apply Hu3. destruct HD as (HD & _). exact HD. }
+    destruct (fst cur1 >=? C) eqn:EC.
+    - apply (good_cons C bs cur1 big' medium' big medium); try assumption.
+      apply (Hrec (bs ++ [cur1]) empty_bin big' medium' small' Hsb Hsm Hb Hm Hs' (or_introl eq_refl)).
+      apply resid_empty; exact HC.
+    - destruct Hor as [Hor|Hor]; [lia|]. subst small'.
+      apply (good_incl C bs big' medium' big medium); try assumption.
+      apply (Hrec bs cur1 big' medium' [] Hsb Hsm Hb Hm (Forall_nil _) (or_intror eq_refl)).
+      split; [lia|]. intros D HD. specialize (Hw D HD). pose proof HD as (HD0 & _).
+      pose proof (Bud_bounds C D medium' HD0). pose proof (Bud_bounds C D medium HD0). lia.
+  Qed.
+
+  Lemma medp_pos C l : 0 < C -> Forall (medp C) l -> Forall (fun a => 0 < valueof a) l.
+  Proof. intros HC H. eapply Forall_impl; [|exact H]. intros a [Ha _]. lia. Qed.
+  Lemma bigp_pos C l : 0 < C -> Forall (bigp C) l -> Forall (fun a => 0 < valueof a) l.
+  Proof. intros HC H. eapply Forall_impl; [|exact H]. unfold bigp. intros a Ha. lia. Qed.
+
+  Lemma main_all C : 0 < C -> forall f, main_at C f.
+  Proof.
+    intros HC. induction f as [|f IH]; intros bs cur big medium small Hsb Hsm Hb Hm Hsmall Hor Hres.
+    - cbn [tq_loop]. apply good_stop; assumption.
+    - rewrite tq_loop_S. destruct small as [|s0 smt]; [apply good_B; assumption|].
+      destruct Hor as [->|Hd]; [|discriminate Hd].
+      destruct (is_nil big && is_nil medium) eqn:EN.
+      + destruct big; [|discriminate EN]. destruct medium; [|discriminate EN].
+        apply good_A; assumption.
+      + unfold tq_pick. cbn [fst snd].
+        destruct (zsum (map valueof (firstn 1 big)) >=? zsum (map valueof (firstn 2 medium))) eqn:Ecmp.
+        * (* opened by the largest big item *)
+          destruct big as [|x0 big'].
+          { destruct medium as [|m0 mt]; [discriminate EN|].
+            pose proof (firstn_pos_sum valueof 2 (m0 :: mt) (medp_pos C _ HC Hm)) as Hp.
+            change (zsum (map valueof (firstn 1 []))) with 0 in Ecmp.
+            assert (0 < zsum (map valueof (firstn 2 (m0 :: mt)))) by (apply Hp; [discriminate|lia]).
+            lia. }
+          cbn [firstn skipn fold_left].
+          inversion Hsb as [|a1 l1 Hsb' Hle]; subst a1 l1.
+          inversion Hb as [|a1 l1 Hx0 Hb']; subst a1 l1.
+          apply (iter_step C f HC IH bs (x0 :: big') medium (s0 :: smt) big' medium [x0]);
+            try assumption.
+          -- cbn. lia.
+          -- reflexivity.
+          -- unfold bigp in Hx0. cbn. lia.
+          -- intros a Ha. right. exact Ha.
+          -- apply incl_refl.
+          -- apply incl_refl.
+          -- intros used D HD Hused.
+             assert (H : 3 * wsum4 C D ([x0] ++ used) <= 24 * D); [|lia].
+             cbn [app]. apply (binX C D x0 big' medium used); try assumption.
+             ++ change (zsum (map valueof (firstn 1 (x0 :: big')))) with (valueof x0 + 0) in Ecmp.
+                lia.
+             ++ replace (valueof x0) with (vsum [x0]) by (cbn; lia). exact Hused.
+        * Show.
